@@ -433,6 +433,10 @@ func (sp *StakePool) DistributeRewardsRandN(
 	if err != nil {
 		return err
 	}
+	if serviceCharge > value {
+		// float64 rounding above 2^53 must not make the charge exceed the amount
+		serviceCharge = value
+	}
 	if serviceCharge > 0 {
 		reward := serviceCharge
 		sr, err := currency.AddCoin(sp.Reward, reward)
@@ -613,6 +617,10 @@ func (sp *StakePool) DistributeRewards(
 	serviceCharge, err := currency.Float64ToCoin(sp.Settings.ServiceChargeRatio * fValue)
 	if err != nil {
 		return err
+	}
+	if serviceCharge > value {
+		// float64 rounding above 2^53 must not make the charge exceed the amount
+		serviceCharge = value
 	}
 	if serviceCharge > 0 {
 		reward := serviceCharge
